@@ -50,6 +50,10 @@ def random_specs(rng, n):
         for ident in rand_idents(rng, rng.randint(1, 6)):
             v = Variant(ident=ident, disabled=rng.random() < 0.15)
             r = rng.random()
+            if r > 0.9:
+                v.parens = True
+            elif r > 0.85:
+                v.braces = True
             if r < 0.5:
                 v.fields = [Field(rng.choice(tys)) for _ in range(rng.randint(1, 3))]
             elif r < 0.65:
@@ -164,7 +168,7 @@ def program(spec: EnumSpec, pname, tier):
 
 def build(tier, seed):
     rng = mk_rng(seed, "C13")
-    specs = pivot() + random_specs(rng, 3 if tier == "quick" else 20)
+    specs = pivot() + random_specs(rng, 6 if tier == "quick" else 24)
     programs = [program(s, "p%03d" % i, tier) for i, s in enumerate(specs)]
     return {
         "programs": programs,
